@@ -195,7 +195,7 @@ PROPERTIES['C01'] = {
     'level': 'other',
     'configs': two,
     'multi_rules': [R(lambda ctx, tier: simd_axis_sse(ctx, tier, fns=(slot.slot1, find.find1, lambda cfg: find.ord1(cfg, mode='range'))))],
-    'rules': [R(point.noeff1), R(point.keyeq1), R(point.leaf1), R(point.leaf2), R(point.leaf3), R(point.root1), R(point.split1), R(point.pair1), R(point.copy1), R(point.desc1), R(find.find1), ORD_RANGE, R(slot.slot1), R(prefix.pfx1), R(prefix.pfx2), R(prefix.pfx3), R(prefix.pfx4), R(lambda cfg: point.type1(cfg, which='point')), R(lambda cfg: nodes.mut1(cfg, parts=('count', 'clear'))), R(nodes.idx1), R(mutex.mx2), R(mutex.mx6),
+    'rules': [R(point.noeff1), R(point.keyeq1), R(point.leaf1), R(point.leaf2), R(point.leaf3), R(point.root1), R(point.split1), R(point.pair1), R(point.copy1), R(lambda cfg: point.desc1(cfg, which='point')), R(find.find1), ORD_RANGE, R(slot.slot1), R(prefix.pfx1), R(prefix.pfx2), R(prefix.pfx3), R(prefix.pfx4), R(lambda cfg: point.type1(cfg, which='point')), R(lambda cfg: nodes.mut1(cfg, parts=('count', 'clear'))), R(nodes.idx1), R(mutex.mx2), R(mutex.mx6),
               R(qsbr.q_free_paths), R(qsbr.q_rotation), R(qsbr.q_barriers), R(lambda cfg: qsbr.q_orphans(cfg, parts=('7', '9'))), R(qsbr.q_tagging), R(qsbr.q_last_out), R(qsbr.q_register_epoch), R(qsbr.q_wrap), R(qstate.qs1), R(qsbr.q_cas),
               advisory(R(lambda cfg: iterrules.sib1_point(cfg, accounting=False))), R(lambda cfg: olcrules.lock6(cfg, kinds=('leaf',))), R(olcrules.lock6b)],
     'technique': 'static analysis: path-sensitive effect flow with callee summaries (result/effect correlation), control-dependence rules (full-key comparison guards), writer/reader expression agreement, abstract interpretation of the node search and key-prefix arithmetic in byte-vector / lane-wise three-valued domains with exhaustively enumerated lengths and counts, sibling differencing db vs olc_db',
@@ -244,12 +244,21 @@ def simd_axis(ctx, tier):
     res = RuleResult('SIMD', 'the vectorised node searches meet one specification in every SIMD configuration (SLOT-1 first null slot of I48, FIND-1 child lookup of I4 / I16, ORD-1 insert position), so results do not depend on -mavx2 vs SSE4.2')
     names = [B, extract.flip(B, 'sse41')] + ([D, extract.flip(D, 'sse41')] if tier == 'thorough' else [])
     ctx.ensure(names)
+    per = {}
     for n in names:
         cfg = ctx.config(n)
         for fn in (slot.slot1, find.find1, find.ord1):
             r = fn(cfg)
             r.instances = {'%s [%s]' % (k, n): v for k, v in r.instances.items()}
+            for x in r.findings:
+                per.setdefault(x.key, set()).add('sse41' if 'sse41' in n else 'avx2')
             res.merge(r)
+    # a search that misses its specification in EVERY SIMD configuration gives the same (wrong) results in all of them: that
+    # is C01 / C02, not a dependence on the configuration - only findings confined to one side of the axis are reported here
+    both = {k for k, v in per.items() if len(v) == 2}
+    if both:
+        res.note('%d finding(s) hold in the AVX2 and in the SSE4.2 configuration alike: the results do not depend on the configuration; reported under C01 / C02, not here' % len([x for x in res.findings if x.key in both]))
+        res.findings = [x for x in res.findings if x.key not in both]
     return res
 
 
@@ -258,7 +267,7 @@ PROPERTIES['C03'] = {
     'configs': two,
     'multi_rules': [R(lambda ctx, tier: simd_axis_sse(ctx, tier, olc_only=True, fns=(slot.slot1, find.find1, lambda cfg: find.ord1(cfg, mode='range'))))],
     'rules': [scoped(olc('LOCK-1'), _olc_point_roots, POINT), scoped(olc('LOCK-2'), _olc_point_roots, POINT), scoped(olc('LOCK-3'), _olc_point_roots, POINT), scoped(olc('LOCK-5'), _olc_point_roots, POINT),
-              scoped(olc('LOCK-9'), _olc_point_roots, POINT), scoped(olc('ROLE'), _olc_point_roots, POINT), scoped(R(point.lock11), _olc_point_roots, POINT), scoped(R(couple.lock12), _olc_point_roots, POINT), scoped(R(couple.lock13), _olc_point_roots, POINT),
+              scoped(olc('LOCK-9'), _olc_point_roots, POINT), scoped(keep_keys(olc('ROLE'), lambda k: 'source_node_guard' not in k, 'swapped guards of a shrink are harmless in release builds - C16'), _olc_point_roots, POINT), scoped(R(point.lock11), _olc_point_roots, POINT), scoped(R(couple.lock12), _olc_point_roots, POINT), scoped(R(couple.lock13), _olc_point_roots, POINT),
               R(lockword.lw)] + [olc_side(r_) for r_ in SEQ_POINT],
     'technique': 'static analysis: relational path-sensitive typestate dataflow (bounded sets of worlds of must/may atoms) over event-CFGs with per-return callee summaries and index-sensitive write-effect summaries',
     'explanation': 'Protocol conformance of the optimistic-lock-coupling code, decided by a relational, path-sensitive dataflow (bounded sets of worlds of must/may atoms over the variables of each function, '
@@ -275,7 +284,7 @@ PROPERTIES['C04'] = {
     'configs': two,
     'rules': [keep_keys(olc('LOCK-1'), lambda k: k.startswith(('LOCK-1a', 'LOCK-1c')), 'a result returned without validation is a wrong answer - C03 / C09 - not a use of reclaimed memory'), olc('LOCK-5'), R(olcrules.lock6), R(olcrules.lock6b),
               R(qsbr.q_free_paths), R(qsbr.q_rotation), R(qsbr.q_barriers), R(lambda cfg: qsbr.q_orphans(cfg, parts=('7', '9'))), R(qsbr.q_tagging), R(qsbr.q_last_out), R(qsbr.q_register_epoch), R(qsbr.q_wrap), R(qstate.qs1),
-              R(lambda cfg: qsbr.q_rotation(cfg, parts=('3',))), R(qsbr.q_cas), R(lambda cfg: qsbr.q_orphans(cfg, parts=('8',))), R(qsbr.q_tail_link), R(qsbr.q_sink), R(qsbr.q_list_rmw), keep_keys(R(acc.acc4), lambda k: k.startswith(('ACC-4:loop', 'ACC-4:delete_root')), 'which counters clear() resets is C10'), scoped(R(exc.exc1), _qsbr_roots, 'QSBR thread start / resume / deferred-deallocation request'), R(ptr.ptr3), R(point.lock11), olc_side(R(lambda cfg: nodes.mut1(cfg, parts=('reclaim',))))],
+              R(lambda cfg: qsbr.q_rotation(cfg, parts=('3',))), R(qsbr.q_cas), R(lambda cfg: qsbr.q_orphans(cfg, parts=('8',))), R(qsbr.q_tail_link), R(qsbr.q_sink), R(qsbr.q_list_rmw), keep_keys(R(acc.acc4), lambda k: k.startswith(('ACC-4:loop', 'ACC-4:delete_root')), 'which counters clear() resets is C10'), scoped(R(exc.exc1), _qsbr_roots, 'QSBR thread start / resume / deferred-deallocation request'), R(ptr.ptr3), keep_keys(R(point.lock11), lambda k: 'retry-in-place' not in k, 'a retry in place is a hang - C14 / C09 - not a use of reclaimed memory'), olc_side(R(lambda cfg: nodes.mut1(cfg, parts=('reclaim',))))],
     'technique': 'static analysis: relational typestate dataflow (validate-before-dereference, obsolete-before-retire), who-may-construct rule for immediate-deleter owners; the QSBR who-may-free / ordering / control-dependence rules of C05',
     'explanation': 'Structural safety conditions of "no use of reclaimed memory": LOCK-1, dereference part (no pointer obtained from a node is followed before the read section on that node is re-validated, so a stale pointer to a retired node is never dereferenced; the "no unvalidated result" part of LOCK-1 is C03 / C09) '
                    'and LOCK-5 (every node an OLC operation hands to reclamation was unlocked-and-obsoleted by it first, so readers still holding a section on it restart; checked at restart returns too - a node retired and then abandoned by a restart is still linked), on every path of every OLC function, both key kinds; '
@@ -286,7 +295,7 @@ PROPERTIES['C04'] = {
 PROPERTIES['C09'] = {
     'level': 'other',
     'configs': two,
-    'rules': [scoped(olc('LOCK-1'), _olc_scan_roots, SCAN), scoped(olc('LOCK-7'), _olc_scan_roots, SCAN), scoped(olc('LOCK-8'), _olc_scan_roots, SCAN), scoped(olc('LOCK-9'), _olc_scan_roots, SCAN), scoped(olc('ROLE'), _olc_scan_roots, SCAN),
+    'rules': [scoped(olc('LOCK-1'), _olc_scan_roots, SCAN), scoped(olc('LOCK-7'), _olc_scan_roots, SCAN), scoped(olc('LOCK-8'), _olc_scan_roots, SCAN), scoped(olc('LOCK-9'), _olc_scan_roots, SCAN), scoped(keep_keys(olc('ROLE'), lambda k: 'source_node_guard' not in k, 'swapped guards of a shrink are harmless in release builds - C16'), _olc_scan_roots, SCAN),
               scoped(R(seq.iter1), _olc_scan_roots, SCAN), scoped(R(iterrules.reseek), _olc_scan_roots, SCAN), scoped(R(iterrules.iter3), _olc_scan_roots, SCAN), scoped(R(iterrules.iter4), _olc_scan_roots, SCAN), scoped(R(iterrules.iter5), _olc_scan_roots, SCAN), scoped(R(point.lock11), _olc_scan_roots, SCAN), scoped(R(couple.lock12), _olc_scan_roots, SCAN), scoped(R(couple.lock13), _olc_scan_roots, SCAN), R(lambda cfg: enc.enc6(cfg, classes=KEYBUF)), R(lambda cfg: enc.enc7(cfg, classes=KEYBUF)),
               R(lockword.lw)] + [olc_side(r_) for r_ in SEQ_SCAN],
     'technique': 'static analysis: relational typestate dataflow over the OLC iterator functions (section validation, stack-entry/version pairing, lock coupling), must-pass-through rules for the re-seek path and the fall-off branch of seek',
@@ -355,12 +364,12 @@ PROPERTIES['C13'] = {
 PROPERTIES['C17'] = {
     'level': 'proof',
     'configs': lambda tier: [B, D] if tier == 'quick' else [B, D, extract.flip(B, 'nostats'), extract.flip(D, 'nostats')],
-    'rules': [R(ptr.ptr1), R(ptr.ptr2), R(ptr.ptr3), R(ptr.ptr4), R(ptr.ptr5)],
+    'rules': [R(ptr.ptr1), R(ptr.ptr2), R(ptr.ptr3), R(ptr.ptr4), R(ptr.ptr5), R(ptr.ptr6)],
     'technique': 'static analysis: operator-shape comparison against a specification table, pairing/ordering dataflow (unregister-before / register-after every address change), dominance rule for the rejection assertions',
     'explanation': 'PTR-1: each operator of qsbr_ptr has, structurally, the shape of the same raw-pointer operator (or the listed delegation: postfix -> prefix, +/- -> +=/-=, n+p -> p+n), checked operator by operator against a specification table. '
                    'PTR-2 (assertion-enabled configurations): every member function that changes the wrapped address unregisters the old value before and registers the new value after on every path, transfers (std::exchange) move the registration, constructors register once, the destructor unregisters once, '
                    'the null filter forwards exactly the non-null pointers, and the per-thread registry inserts once and erases exactly ONE element (erase by iterator) - so after every member function the registry equals the multiset of live non-null wrapper values; NDEBUG configurations contain no tracking. '
-                   'PTR-5: a move (constructor, assignment) leaves the source null on every path, the only exemption being a self-move guarded by an address test. PTR-3: qsbr_ptr_span stores data()/size() and reproduces them. PTR-4: quiescent / qsbr_pause / qsbr_resume assert registry emptiness before any state change.',
+                   'PTR-5: a move (constructor, assignment) leaves the source null on every path, the only exemption being a self-move guarded by an address test. PTR-3: qsbr_ptr_span stores data()/size() and reproduces them. PTR-6: the span keeps its start in a qsbr_ptr, so a live span is a registered wrapper even when no iterator into it exists. PTR-4: quiescent / qsbr_pause / qsbr_resume assert registry emptiness before any state change.',
     'decides': 'operator homomorphism; exact liveness tracking; span mapping; the three rejection sites',
     'does_not_decide': 'std::unordered_multiset itself; that the assertion macro aborts',
     'trusted_base': ['clang 14 front end', 'usa extractor and rule engine', 'std::unordered_multiset', 'assert() aborts on failure'],
